@@ -119,7 +119,7 @@ def typeNames : List B := [s "array", s "boolean", s "integer", s "number", s "o
 def isNatText (x : B) : Bool := !x.isEmpty && x.all isDigit
 
 /-- one scalar member of a Schema Object -/
-def attrOK (v : Version) (a : B × Sc) : Bool :=
+def attrCoreOK (v : Version) (a : B × Sc) : Bool :=
   let k := a.1
   match v, a.2 with
   | _, .str x =>
@@ -135,6 +135,9 @@ def attrOK (v : Version) (a : B × Sc) : Bool :=
   | _, .num x =>
     if [s "maxLength", s "minLength"].contains k then isNatText x
     else [s "maximum", s "minimum"].contains k || (v = .v31 && [s "exclusiveMaximum", s "exclusiveMinimum"].contains k)
+
+/-- one scalar member of a Schema Object; `default` admits any value -/
+def attrOK (v : Version) (a : B × Sc) : Bool := a.1 == s "default" || attrCoreOK v a
 
 mutual
   def wfSchema (v : Version) : Schema → Bool
